@@ -430,7 +430,10 @@ func genFilter(rng *rand.Rand, depth int) string {
 	if depth > 2 {
 		return "(" + attr + "=" + val + ")"
 	}
-	switch rng.Intn(9) {
+	switch rng.Intn(10) {
+	case 9:
+		// extensible match with the dnAttributes flag (RFC 4515: "(cn:dn:=x)", "(:dn:2.4.6.8.10:=x)", "(o:dn:rule:=x)")
+		return []string{"(" + attr + ":dn:=" + val0(val) + ")", "(:dn:2.4.6.8.10:=Dino)", "(" + attr + ":dn:caseIgnoreMatch:=" + val0(val) + ")"}[rng.Intn(3)]
 	case 0:
 		n := 1 + rng.Intn(3)
 		s := "(&"
@@ -461,6 +464,9 @@ func genFilter(rng *rand.Rand, depth int) string {
 		return "(" + attr + "=" + val + ")"
 	}
 }
+
+// val0: an assertion value without substring wildcards
+func val0(v string) string { return strings.ReplaceAll(v, "*", "x") }
 
 func genReq(rng *rand.Rand) Req {
 	r := Req{ID: genID(rng), TrueOctet: []byte{0xff, 0xff, 0x01, 0x01, 0x80, byte(1 + rng.Intn(255))}[rng.Intn(6)]}
